@@ -505,6 +505,10 @@ pub fn variants(tier: Tier) -> Vec<(String, M, usize)> {
 
 pub fn run_object_level(ctx: &Ctx) {
     super::c05n::run_node_level(ctx);
+    ctx.assume("object level: two parties, at most 4 distinct datagrams in flight (identical retransmissions are one datagram; Dup delivers any of them again), at most one restart per side");
+    ctx.assume("fair suffix: reliable network with bounded rate (32 datagrams per tick, 4 once an echo storm was seen for 3 ticks), 125 ticks");
+    ctx.assume("node level: deviations only at the first 10-14 datagram hand-overs, at most 2 per execution; reliable phase 430 s");
+    ctx.assume("fresh values (keys, ECDH halves, hashes, message bytes) renamed by first occurrence; the order of the two salted hashes is owned through the H5 seam, both orientations explored");
     for (i, (fam, m, depth)) in variants(ctx.tier).into_iter().enumerate() {
         let res = explore::explore(
             ctx,
